@@ -264,7 +264,9 @@ class CommentStyle:
         # single-line comment. A block that never delimits is no block.
         if cls.can_handle_multi() and text.startswith(cls.MULTI_LINE.start):
             for i, line in enumerate(lines):
-                if line.endswith(cls.MULTI_LINE.end):
+                # Trailing blanks after the delimiter do not keep it from
+                # closing the block.
+                if line.rstrip().endswith(cls.MULTI_LINE.end):
                     end = i
                     break
 
@@ -284,7 +286,7 @@ class CommentStyle:
         ):
             for i, line in enumerate(lines):
                 end = i
-                if line.endswith(cls.MULTI_LINE.end):
+                if line.rstrip().endswith(cls.MULTI_LINE.end):
                     break
             else:
                 raise CommentParseError("Comment block never delimits")
